@@ -111,3 +111,5 @@ theorem code_big_step {B vmi} (k : List Frame) (rest : List Op) :
       rw [run_add (n + 1) (n' + 1 + m'), run_add n 1, eval_in_context ha, e1, ih hb hs']
       simp
 
+
+end SqProps.C07
